@@ -1,7 +1,19 @@
 ---- MODULE MC_GroupFailover ----
 EXTENDS GroupFailover
-\* simulation only: a mix in which lease moves are as likely as requests (a uniform choice among ~25 requests rarely moves the lease),
-\* and requests go preferably to the broker that can serve
-MoveStep == ExpireStep \/ NoticeStep
-NextSim == ReqStep \/ MoveStep \/ ShutdownStep
+\* simulation only: clients that have never joined do not send member requests, requests go to a broker that is not shut down
+\* (a uniform choice among all requests is mostly noise: unknown members, closed brokers)
+SensibleReq == \E b \in Brokers, api \in Apis, c \in Clients :
+                  /\ ~closed[b]
+                  /\ (api \in {"Sync", "Heartbeat", "Leave", "Commit"} => mid[c] # 0)
+                  /\ (api = "Fetch" => c = CHOOSE x \in Clients : TRUE)
+                  /\ Req(b, api, c)
+NextSim == ReqStep \/ ExpireStep \/ NoticeStep \/ ShutdownStep
+NextSensible == SensibleReq \/ ExpireStep \/ NoticeStep
+\* ... and nobody talks to a broker that sits in its expiry-detection window: the history stays clean, fail-overs and fail-backs are judged
+CleanReq == \E b \in Brokers, api \in Apis, c \in Clients :
+               /\ ~closed[b] /\ ~(owned[b] /\ sess[b] \in dead)
+               /\ (api \in {"Sync", "Heartbeat", "Leave", "Commit"} => mid[c] # 0)
+               /\ (api = "Fetch" => c = CHOOSE x \in Clients : TRUE)
+               /\ Req(b, api, c)
+NextClean == CleanReq \/ ExpireStep \/ NoticeStep
 ====
